@@ -1,7 +1,11 @@
 ------------------------------------------ MODULE HexLattice ------------------------------------------
 (* C07 (shared with C08) -- the hexagonal lattice of armi/reactor/grids/hexagonal.py, integers only.
 
-   PURE MODULE: no variables, no constants.  It is EXTENDed by HexLattice_mc (C07) and by the symmetry
+   PURE MODULE: no variables, no constants.  The integer core (Dist, Ring, CAdd, XY, Cross, RingStart, NbVec and the
+   closed forms CodeRingPos / CodeRaisesAt / CodeFromRingPos / CodeNeighbours / CodeNumInRing, SpiralStep) lives in
+   HexCore.tla, which this module EXTENDS and which HexSpiral.tla shares: Apalache proves there, for every ring,
+   that the closed forms agree with the counter-clockwise walk; here TLC ties walk, closed forms and the geometric
+   reference numbering together up to the ring bound of the cfg (ThmRingContiguous, ThmCode...).  It is EXTENDed by HexLattice_mc (C07) and by the symmetry
    modules of C08.  Stable interface (c, a, b are cells <<i, j>>; o is an orientation "flats" | "corners"):
 
      Cells(N)            the cells within N rings (N >= 0; Cells(0) = {})
@@ -33,7 +37,8 @@
            NbVec and proven equal to the geometric definition for both orientations (ThmNbVecIsGeometric).
    (2) Transcriptions of the code's arithmetic (Code* operators), line by line:
          CodeRingPos      <- HexGrid.indicesToRingPos            (six edge branches, positionBase + offset)
-         CodeFromRingPos  <- HexGrid._indicesAndEdgeFromRingAndPos (divmod(pos, ring), six edge branches)
+         CodeFromRingPos, CodeRaisesAt <- HexGrid._indicesAndEdgeFromRingAndPos (divmod(pos, ring), six edge
+                             branches; CodeRaisesAt = its ValueError branches)
          CodeNeighbours   <- HexGrid.getNeighboringCellIndices
          CodeNumInRing / CodeTotalUpTo / CodeRingsToHold <- utils/hexagon.py numPositionsInRing /
                              totalPositionsUpToRing / numRingsToHoldNumCells (the float sqrt is transcribed
@@ -50,16 +55,11 @@
      * The position definition uses the orientation only through the polar angle; ThmOrientationFree shows
        ring/position/neighbour order are the same for both orientations (corners-up is flats-up turned 30 deg).
 *)
-EXTENDS Integers, Sequences, FiniteSets, TLC
+EXTENDS HexCore, FiniteSets, TLC      \* HexCore: distance, lattice vectors, plane coordinates, closed forms (typed for Apalache)
 
 Orients == {"flats", "corners"}
 
-HAbs(x) == IF x < 0 THEN -x ELSE x
-HMax(a, b) == IF a >= b THEN a ELSE b
-
 (* ------------------------------------------ cells, distance, rings ------------------------------------------ *)
-Dist(c) == HMax(HMax(HAbs(c[1]), HAbs(c[2])), HAbs(c[1] + c[2]))
-Ring(c) == Dist(c) + 1
 Box(d)  == {<<i, j>> : i \in (-d)..d, j \in (-d)..d}
 Cells(N) == IF N <= 0 THEN {} ELSE {c \in Box(N - 1) : Dist(c) <= N - 1}
 \* the cells at distance exactly d.  max(|i|,|j|,|i+j|) = d forces |i| = d or |j| = d or |i+j| = d, so it is
@@ -67,25 +67,14 @@ Cells(N) == IF N <= 0 THEN {} ELSE {c \in Box(N - 1) : Dist(c) <= N - 1}
 Shell(d) == {<<i, j>> : i \in {-d, d}, j \in (-d)..d} \cup {<<i, j>> : i \in (-d)..d, j \in {-d, d}}
             \cup {<<i, s - i>> : i \in (-d)..d, s \in {-d, d}}
 RingCells(r) == {c \in Shell(r - 1) : Dist(c) = r - 1}
-CAdd(a, b) == <<a[1] + b[1], a[2] + b[2]>>
-CSub(a, b) == <<a[1] - b[1], a[2] - b[2]>>
-
 (* ------------------------------------------ exact plane geometry ------------------------------------------ *)
-XFlatsUp(c)   == 3 * c[1]
-YFlatsUp(c)   == c[1] + 2 * c[2]
-XCornersUp(c) == c[1] - c[2]
-YCornersUp(c) == 3 * (c[1] + c[2])
-XY(o, c) == IF o = "flats" THEN <<XFlatsUp(c), YFlatsUp(c)>> ELSE <<XCornersUp(c), YCornersUp(c)>>
 \* names of the physical units of the two lattice coordinates (the harness turns them into cm for a pitch)
 XUnit(o) == IF o = "flats" THEN "halfside" ELSE "halfpitch"
 YUnit(o) == IF o = "flats" THEN "halfpitch" ELSE "halfside"
 WX(o) == IF o = "flats" THEN 1 ELSE 3
 WY(o) == IF o = "flats" THEN 3 ELSE 1
-\* on plane vectors A, B = XY(o, .)
-CrossV(A, B)   == A[1] * B[2] - A[2] * B[1]                                   \* * sqrt(3)(side/2)^2
 DotV(o, A, B)  == WX(o) * A[1] * B[1] + WY(o) * A[2] * B[2]                   \* * (side/2)^2
-\* on lattice vectors a, b (differences of cells); XY is linear
-Cross(o, a, b) == CrossV(XY(o, a), XY(o, b))
+\* on lattice vectors a, b (differences of cells); XY is linear      (CrossV, Cross: HexCore)
 Dot(o, a, b)   == DotV(o, XY(o, a), XY(o, b))
 Len2(o, a)     == Dot(o, a, a)
 Pitch2         == 12                                                         \* pitch^2 = 3 side^2 = 12 (side/2)^2
@@ -99,7 +88,6 @@ BeforeV(o, S, A, B) == LET ha == HalfV(o, S, A)
 AngBefore(o, s, a, b) == BeforeV(o, XY(o, s), XY(o, a), XY(o, b))
 
 (* ------------------------------------------ ring / position (reference) ------------------------------------------ *)
-RingStart(r) == <<r - 1, 0>>
 \* 1 + number of cells of the same ring whose polar angle, counted from the ring's start cell, is smaller
 \* (BeforeV(o, S, D, C) written out so that the half-plane of c is evaluated once)
 PosIn(o, c) == IF c = <<0, 0>> THEN 1
@@ -134,7 +122,7 @@ NbVecIn(o) == LET S == NbVecSet(o)
               IN [k \in 1..Cardinality(S) |-> CHOOSE v \in S : rank(v) = k]
 \* ... and its value, written out so that TLC does not re-derive it on every use.  ThmNbVecIsGeometric (checked once
 \* by HexLattice_mc) proves that this list IS NbVecIn(o) for both orientations.
-NbVec == << <<1, 0>>, <<0, 1>>, <<-1, 1>>, <<-1, 0>>, <<0, -1>>, <<1, -1>> >>
+\* NbVec == << <<1, 0>>, <<0, 1>>, <<-1, 1>>, <<-1, 0>>, <<0, -1>>, <<1, -1>> >>      (defined in HexCore)
 ThmNbVecIsGeometric == \A o \in Orients : NbVecIn(o) = NbVec
 NeighboursIn(o, c) == [k \in 1..6 |-> CAdd(c, NbVec[k])]      \* the same for both orientations (ThmNbVecIsGeometric)
 Neighbours(c) == NeighboursIn("flats", c)
@@ -157,39 +145,8 @@ HexLabelNums(c)     == RingPos(c)
 HexLabelNums3(c, k) == LET rp == RingPos(c) IN <<rp[1], rp[2], k>>
 
 (* ------------------------------------------ transcriptions of the code ------------------------------------------ *)
-CodeRingPos(c) ==
-    LET i == c[1]
-        j == c[2]
-        \* <<edge, ring, offset>>
-        e == IF i > 0 /\ j >= 0 THEN <<0, i + j + 1, j>>
-             ELSE IF i <= 0 /\ j > -i THEN <<1, j + 1, -i>>
-             ELSE IF i < 0 /\ j > 0 THEN <<2, -i + 1, -j - i>>
-             ELSE IF i < 0 THEN <<3, -i - j + 1, -j>>
-             ELSE IF i >= 0 /\ j < -i THEN <<4, -j + 1, i>>
-             ELSE <<5, i + 1, i + j>>
-        positionBase == 1 + e[1] * (e[2] - 1)
-    IN <<e[2], positionBase + e[3]>>
-
-\* CodeRaises (the empty tuple) when the code raises ValueError, else <<i, j>>
-CodeRaises == <<>>
-CodeFromRingPos(r, p) ==
-    LET ring == r - 1
-        pos  == p - 1
-    IN IF ring = 0 THEN (IF pos # 0 THEN CodeRaises ELSE <<0, 0>>)
-       ELSE LET edge == pos \div ring      \* python divmod floors, like TLA+ \div and % for ring > 0
-                offset == pos % ring
-            IN IF edge = 0 THEN <<ring - offset, offset>>
-               ELSE IF edge = 1 THEN <<-offset, ring>>
-               ELSE IF edge = 2 THEN <<-ring, ring - offset>>
-               ELSE IF edge = 3 THEN <<offset - ring, -offset>>
-               ELSE IF edge = 4 THEN <<offset, -ring>>
-               ELSE IF edge = 5 THEN <<ring, offset - ring>>
-               ELSE CodeRaises
-
-CodeNeighbours(c) == LET i == c[1] j == c[2] IN
-    << <<i + 1, j>>, <<i, j + 1>>, <<i - 1, j + 1>>, <<i - 1, j>>, <<i, j - 1>>, <<i + 1, j - 1>> >>
-
-CodeNumInRing(r) == IF r # 1 THEN (r - 1) * 6 ELSE 1
+\* CodeRingPos, CodeRaisesAt, CodeFromRingPos, CodeNeighbours, CodeNumInRing: see HexCore.tla (shared with HexSpiral,
+\* where Apalache proves for every ring that they agree with the counter-clockwise walk SpiralStep)
 CodeTotalUpTo(r) == 1 + 3 * r * (r - 1)
 \* int(ceil(0.5 * (1 + sqrt(1 + 4*(n-1)//3)))) with exact reals:  least integer r with 2r-1 >= sqrt(m)
 CodeRingsToHold(n) ==
@@ -229,7 +186,7 @@ ThmOrientationFree(c) ==
     /\ NeighboursIn("flats", c) = NeighboursIn("corners", c)       \* by ThmNbVecIsGeometric
 \* the code's arithmetic is the geometric definition
 ThmCodeRingPos(c) == CodeRingPos(c) = RingPos(c)
-ThmCodeFromRingPos(c) == LET rp == RingPos(c) IN CodeFromRingPos(rp[1], rp[2]) = c
+ThmCodeFromRingPos(c) == LET rp == RingPos(c) IN ~CodeRaisesAt(rp[1], rp[2]) /\ CodeFromRingPos(rp[1], rp[2]) = c
 ThmCodeNeighbours(c) == CodeNeighbours(c) = Neighbours(c)
 \* the centre of a cell is one pitch times its ring distance away at the ring corners, never closer than
 \* sqrt(3)/2 of that (cells of ring r lie between the inscribed and circumscribed circle of the ring hexagon)
@@ -253,8 +210,11 @@ ThmRingContiguous(r) ==
                 b == at((p % n) + 1)
             IN /\ Len2("flats", CSub(b, a)) = Pitch2
                /\ Cross("flats", a, b) > 0
-    /\ \A p \in {0, n + 1} : CodeFromRingPos(r, p) = CodeRaises        \* refusals: exactly outside 1..n
-    /\ \A p \in 1..n : CodeFromRingPos(r, p) = at(p)
+    /\ \A p \in {0, n + 1} : CodeRaisesAt(r, p)                         \* refusals: exactly outside 1..n
+    /\ \A p \in 1..n : ~CodeRaisesAt(r, p) /\ CodeFromRingPos(r, p) = at(p)
+    \* the numbering is the walk of HexSpiral: every position is followed by its SpiralStep successor
+    /\ \A p \in 1..n : LET nx == IF p < n THEN <<r, p + 1>> ELSE <<r + 1, 1>>
+                        IN SpiralStep(r, p, at(p), nx[1], nx[2], IF p < n THEN at(p + 1) ELSE RingStart(r + 1))
 ThmCounts(r) ==
     /\ CodeNumInRing(r) = NumInRing(r)
     /\ CodeTotalUpTo(r) = TotalUpTo(r)
